@@ -212,7 +212,7 @@ pub fn decode(target: &str, data: &[u8]) -> Vec<(&'static str, Value)> {
                     let ids: Vec<u32> = facts.terms.iter().map(|t| t.id).collect();
                     let n = r.below(40);
                     let members = (0..n).map(|_| ids[r.below(ids.len())]).collect();
-                    vec![("C13", serde_json::to_value(c13::Case { facts, members }).unwrap())]
+                    vec![("C13", serde_json::to_value(c13::Case { facts, members, path: PathSel::Bin(3) }).unwrap())]
                 }
                 2 => {
                     let cfg = std_cfg(NameMode::Capped, true);
@@ -223,7 +223,7 @@ pub fn decode(target: &str, data: &[u8]) -> Vec<(&'static str, Value)> {
                     inside.push(root);
                     let nl = 1 + r.below(6);
                     let leaves = (0..nl).map(|_| if r.u8() % 10 == 0 { m.ids[r.below(m.ids.len())] } else { inside[r.below(inside.len())] }).collect();
-                    vec![("C14", serde_json::to_value(c14::Case { facts, root, leaves }).unwrap())]
+                    vec![("C14", serde_json::to_value(c14::Case { facts, root, leaves, path: PathSel::Bin(3) }).unwrap())]
                 }
                 3 => {
                     let cfg = std_cfg(NameMode::Capped, true);
